@@ -370,7 +370,13 @@ def run(tier):
         res.add(v)
     bound = 2
     st = explore.explore(Race("line"), race_params(tier), bound)
+    ix = None
+    if tier != "quick":
+        ix = explore.extra(st, explore.hybrid(Race("instr")), [dict(p, bound=2.015) for p in race_params("quick") if "ao_start" not in str(p)],
+                           2.015, 1200, "fabric-only races at instruction granularity, two deviations of which at most one inside a source line")
     fill(res, st, bound, "line")
+    if ix:
+        res.coverage["instruction_extra"] = ix
     cov = res.coverage
     cov["sequential_part"] = {k: b[k] for k in ("states", "transitions", "verdicts", "depth")}
     cov["race_part"] = {"executions": st.executions, "distinct_outcomes": len(st.outcomes), "verdicts": st.verdicts}
